@@ -261,6 +261,40 @@ def _cellwise(x, ua, y, ub, take, limit=None):
     return SymBool(z3.And(cs)) if cs else True
 
 
+class HexOf:
+    """hex rendering of a non-concrete byte string: may be formatted into messages or compared, never parsed
+    (it is deliberately not a str, so a semantic use fails loudly)"""
+
+    def __init__(self, r):
+        self.rope = r
+
+    def decode(self, *a):
+        return self
+
+    def hex(self):
+        return self
+
+    def __format__(self, spec):
+        return "<symhex>"
+
+    def __str__(self):
+        return "<symhex>"
+
+    __repr__ = __str__
+
+
+class FmtDict(dict):
+    """a lookup table whose values are only used to format messages: a symbolic key yields a placeholder"""
+
+    def get(self, k, default=None):
+        if core.is_sym(k):
+            c = concretize(k) if isinstance(k, SymInt) else k
+            if core.is_sym(c):
+                return "<sym>"
+            k = c
+        return dict.get(self, k, default)
+
+
 class SymBytes:
     mutable = False
     __slots__ = ("segs",)
@@ -424,7 +458,8 @@ class SymBytes:
         return self.concrete()
 
     def hex(self, *a):
-        return self.concrete().hex(*a)
+        c = self.concrete_or_none()
+        return c.hex(*a) if c is not None else HexOf(self)
 
     def decode(self, *a, **k):
         c = self.concrete_or_none()
